@@ -13,4 +13,26 @@ CLAIMS = {
   'note': 'Bounded: loop-id alphabet of 9 representative ids, histories of <=3 calls exhaustively plus random histories of <=10 calls; trusted: TLC, the projection functions in lib/c17.py.',
   'technique': 'TLA+ model checking (TLC) + replay of TLC behaviours into the code + TLC trace validation of recorded executions',
  },
+ 'C04': {
+  'text': 'TLC model-checks the implementation-shaped reader model (spec/Envelope.tla: _parse_segment of X12Base and X12Reader, cleanup) against the '
+          'independent recount definition (spec/Recount.tla: nesting, control-number scope, counts, HL path, LX numbering) as invariants over all segment '
+          'histories within bounds (full histories <=4/5, de-duplicated state graph to depth 6-15, focused HL/LX alphabets, random walks to depth 24/40); '
+          'every emitted history is concretised under 4 delimiter/line-break settings and read by the real X12Reader, and every execution (plus the repository '
+          'fixtures and concatenations of them) is trace-validated by TLC (T_Envelope): the Recount definition decides violations per segment and at cleanup, '
+          'the Envelope transcription is compared state-by-state (counters, loop stack, error list) and reports drift.',
+  'note': 'Control numbers range over 2-3 values (only equality matters); a blank HL02 makes no claim; LX numbering is claimed only after a CLM of the same set '
+          'with the caller-enabled 837 check; error classes are compared as (level, code) sets. Trusted: TLC, concretiser/projection in lib/c04.py.',
+  'technique': 'TLA+ refinement check (TLC) of reader model vs recount definition + replay of TLC histories into X12Reader + TLC trace validation of recorded executions',
+ },
+ 'C14': {
+  'text': 'TLC enumerates SyntaxGen: all 5 note types x every ordered list of 2..4 distinct positions out of 1..5/1..6 x every segment of length 0..5/6 with every '
+          'presence pattern (63k/324k cases), checking that the transcribed counting loops (SyntaxImpl) equal the X12 definition (Syntax.tla) and the relations '
+          'between the five conditions; every case is replayed into a real segment_if and Segment (is_syntax_valid verdict, element error code 10 for E else 2 at a '
+          'mentioned position, none when satisfied). For every syntax note of every segment of every loadable shipped map x every presence pattern x every segment '
+          'length, is_syntax_valid and segment_if.is_valid(errh_list) are run and the log is trace-validated by TLC (T_Syntax); complete table in the thorough tier.',
+  'note': 'Errors of other validations are separated by differencing against the same is_valid call with the notes switched off; error position only required to be '
+          'one of the note positions; quick tier: 5-element generator space, distinct (note, element-count) signatures over all maps plus per-occurrence is_valid on 5 maps. '
+          'Not covered: the unloadable 841 map, cases where is_valid raises regardless of notes. Trusted: TLC, projections in lib/c14.py.',
+  'technique': 'TLA+ model checking (TLC) Impl=Def + replay of TLC cases into the code + TLC trace validation of the complete recorded table',
+ },
 }
